@@ -43,4 +43,5 @@ def clean_suite(seed, count, out, drv):
 
 def replay(v, drv):
     real = DocumentationAggregator.clean_doc_lines(list(v['lines']))
-    return dict(fails=True, real=real, lines=v['lines'])
+    exp = (v.get('detail') or {}).get('expected')
+    return dict(fails=exp is not None and real != exp, real=real, expected=exp, lines=v['lines'])
